@@ -97,6 +97,8 @@ def check(inp):
             vals.append(np.float64(lib[v.name][r].to_value(unit)))
         rv, lnl = fn(*vals)
         s_col = lib["s"][r].to_value(vu) if (inp["s"] and "s" in lib.par_names) else 0.0
+        if inp["s"] == "fixed":
+            s_col = (2.5 * u.km / u.s).to_value(vu)      # the constant that was DECLARED (support.default_prior), not what the model reports
         row = np.array([[lib["P"][r].to_value(u.day), float(np.asarray(lib["e"])[r]), lib["omega"][r].to_value(u.rad), lib["M0"][r].to_value(u.rad), s_col]])
         _, parts = t01.closed_form(prior, data, row, inp, parts=True)
         M, mu, Lam, C, y = parts[0]
